@@ -135,9 +135,21 @@ func (e *vsExchange) wanted() []cid.Cid {
 // peer: compute the CID by hashing the data under the prefix - which runs the repository's
 // hasher - and hand the block to every session that wants that CID.
 func (e *vsExchange) Deliver(prefix cid.Prefix, data []byte) (accepted bool, c cid.Cid, err error) {
+	// the registry entry the hasher is about to verify against (it loads it first thing, like here)
+	var before any
+	if inner, _, perr := unmarshalProto(data); perr == nil {
+		before, _ = unmarshalFns.Load(inner)
+	}
 	c, err = prefix.Sum(data)
 	if err != nil {
 		return false, cid.Undef, err
+	}
+	if after, _ := unmarshalFns.Load(c); before != nil && before != after {
+		// the verification passed against the entry of a fetch that returned meanwhile (its entry is
+		// gone or was replaced by a later fetch's): also seen for fetches the world does not wrap
+		vsSlowMu.Lock()
+		vsStale[c] = true
+		vsSlowMu.Unlock()
 	}
 	blk, err := blocks.NewBlockWithCid(data, c)
 	if err != nil {
@@ -737,6 +749,19 @@ func vsBitswapWorld(s *verifsim.Sim) {
 				continue
 			}
 			if ref := honestBytes(rb.cid, sr.srv); ref != nil && !bytes.Equal(blk.RawData(), ref) {
+				// other bytes than the honest encoding: fine if they decode and verify, for the header of
+				// the fetch that stored them, to the committed data of the identifier (an encoding that
+				// differs in a bit the decoder ignores is not a forgery)
+				sqOfStore := sqA
+				if sr.srv == servingB {
+					sqOfStore = sqB
+				}
+				if fresh, cerr := vsCloneReq(rb, sqOfStore, hA); cerr == nil {
+					if uerr := unmarshal(fresh.blk.UnmarshalFn(sqOfStore.Roots), blk.RawData()); uerr == nil && fresh.populated() && fresh.check(sqOfStore) == nil {
+						s.Probe("stored-block-other-encoding-verifies")
+						continue
+					}
+				}
 				vsSlowMu.Lock()
 				stale := vsStale[rb.cid]
 				vsSlowMu.Unlock()
